@@ -131,8 +131,9 @@ class Shapes:
         if key in self.cache:
             return self.cache[key]
         if key in self.stack:
+            # a recursive call adds nothing the other returns do not already contribute (least fixpoint)
             s = ShapeSet()
-            s.open = True
+            s.none = True
             return s
         self.stack.add(key)
         res = ShapeSet()
